@@ -86,7 +86,7 @@ def run_history(ctx, rng, nops, script=None):
         r = rng.random()
         forced = script[step_i] if script is not None else None
         if (forced is None and r < 0.35) or (forced is not None and forced.startswith("E")):       # edits
-            e = rng.random() if forced is None else {"E_insert_transform": 0.1, "E_set_transform": 0.5, "E_insert_frame": 0.7,
+            e = rng.random() if forced is None else {"E_insert_transform": 0.1, "E_set_transform": 0.5, "E_insert_frame": 0.7, "E_repoint": 0.82,
                                                     "E_bbox": 0.85, "E_bbox_none": 0.95}[forced]
             if e < 0.4:
                 d = rng.choice([0.01, 1.0, 40.0])
@@ -104,6 +104,20 @@ def run_history(ctx, rng, nops, script=None):
                 w.insert_frame(fr[0], models.Shift(rng.uniform(-2, 2)) & models.Shift(rng.uniform(-2, 2)),
                                cf.Frame2D(name=f"extra{extra}"))
                 hist.append("insert_frame(detector, Shift&Shift, new Frame2D)")
+            elif e < 0.84:
+                # the get_transform / modify in place / set_transform idiom: the SAME transform object is set again after the
+                # pointing of its sky rotation was changed by a large angle
+                def leaves_of(m):
+                    return [m[i] for i in range(m.n_submodels)] if m.n_submodels > 1 else [m]
+                idx = next(i for i, st in enumerate(w.pipeline) if st.transform is not None
+                           and any(type(m).__name__ == "RotateNative2Celestial" for m in leaves_of(st.transform)))
+                tr = w.pipeline[idx].transform
+                rot = [m for m in leaves_of(tr) if type(m).__name__ == "RotateNative2Celestial"][0]
+                dlon = rng.choice([140.0, 97.0, 200.0])
+                rot.lon = (float(rot.lon.value) + dlon) % 360.0
+                fr = w.available_frames
+                w.set_transform(fr[idx], fr[idx + 1], tr)
+                hist.append(f"set_transform(same object, re-pointed in place by {dlon} deg)")
             elif e < 0.9:
                 w.bounding_box = ((-0.5, rng.choice([899.5, 999.5])), (-0.5, rng.choice([699.5, 799.5])))
                 hist.append("bounding_box = ...")
@@ -232,7 +246,7 @@ def run(ctx):
                             f"{np.asarray(a).tolist()} but a fresh twin gives {np.asarray(b).tolist()}", corpus, "C08/stale-approx-inverse"))
     # exhaustive family of short histories: [query; edit; query] for every (query, edit) pair
     QS = ["call", "invert", "numinv", "in_image", "footprint", "to_fits_sip", "get_transform", "props", "str"]
-    ES = ["E_insert_transform", "E_set_transform", "E_insert_frame", "E_bbox", "E_bbox_none"]
+    ES = ["E_insert_transform", "E_set_transform", "E_insert_frame", "E_repoint", "E_bbox", "E_bbox_none"]
     for q in QS:
         for e in ES:
             hist, problems, _ = run_history(ctx, rng, 3, script=[q, e, q])
